@@ -209,6 +209,9 @@ def symbol_models():
                         # an import binds the name: the name is local unless declared global/nonlocal
                         if imported and not (scope in ("LOCAL", "CELL", "GLOBAL_EXPLICIT") or nonlocal_):
                             continue
+                        # so does an assignment (function and class blocks)
+                        if assigned and not (scope in ("LOCAL", "CELL", "GLOBAL_EXPLICIT") or nonlocal_):
+                            continue
                         out.append({
                             "scope": scope, "is_parameter": param, "is_assigned": assigned,
                             "is_nonlocal": nonlocal_, "is_imported": imported,
@@ -431,6 +434,38 @@ def rule_r4(ctx):
                                 out += own_exits(h.body)
                     return out
 
+                # ... and no name is passed over, except the implicit __class__ of methods
+                def own_continues(stmts, guards):
+                    out = []
+                    for st in stmts:
+                        if isinstance(st, ast.Continue):
+                            out.append((st, list(guards)))
+                        elif isinstance(st, ast.If):
+                            out += own_continues(st.body, guards + [st.test])
+                            out += own_continues(st.orelse, guards + [st.test])
+                        elif isinstance(st, (ast.With, ast.Try)):
+                            for blk in ("body", "orelse", "finalbody"):
+                                out += own_continues(getattr(st, blk, []) or [], guards)
+                    return out
+
+                for cont, guards in own_continues(lp.body, []):
+                    rr.instances += 1
+                    g_txt = " and ".join(ast.unparse(g)[:60] for g in guards)
+                    conj = ast.BoolOp(op=ast.And(), values=list(guards)) if len(guards) > 1 else (guards[0] if guards else None)
+                    only_others = conj is not None and all(
+                        (eval_symbol_pred(conj, m) is False) or (eval_symbol_pred(conj, m) is True and not (m["is_free"] or m["is_nonlocal"]))
+                        for m in models
+                    )
+                    if any(isinstance(k, ast.Constant) and k.value == "__class__" for g in guards for k in ast.walk(g)):
+                        rr.ok(f"{ci.name}|names-loop|skip@{cont.lineno}", sample={"rule": "C06-R4", "skip": g_txt, "verdict": "only the implicit __class__"})
+                    elif only_others:
+                        rr.ok(f"{ci.name}|names-loop|skip@{cont.lineno}", sample={"rule": "C06-R4", "skip": g_txt, "verdict": "skips only symbols that are neither free nor nonlocal (all models)"})
+                    else:
+                        rr.fail(
+                            f"C06-R4|{ci.name}|names-loop|name-skipped",
+                            f"{fi.where()} line {cont.lineno}: a free / nonlocal name is passed over when `{g_txt}`: it is not recorded in the owner's inner_nonlocal_names, so the owner keeps it as a plain variable while a sibling scope reads / writes the shared dict, or the other way round (a name that is free here only because a lambda or comprehension inside this function uses it has no namespace of its own to resolve it)",
+                            where=fi.where(), what=f"{ci.name}|names-loop|skip@{cont.lineno}",
+                        )
                 exits = own_exits(lp.body)
                 if exits:
                     e = exits[0]
@@ -534,11 +569,15 @@ def rule_r3(ctx):
                     if k not in keys:
                         keys.append(k)
         classes = {k: classify_key(k, comp_attrs) for k in keys}
-        others = [k for k, c in classes.items() if c[0] == "other"]
-        if others:
-            raise AnalysisError(f"C06-R3: decision list of {ci.name} tests a predicate the oracle does not know: {others[:3]}")
+        # a test the oracle has no axiom for (e.g. hasattr(builtins, name)) is a free boolean: it may
+        # be true or false for any symbol
+        free = {k: "P:" + re.sub(r"[^A-Za-z_]+", "-", k.split(":", 1)[-1])[:40].strip("-") for k, c in classes.items() if c[0] == "other"}
+        for k, nm in free.items():
+            classes[k] = ("host", nm)
+            rr.note(f"{ci.name}: `{k}` is treated as a free predicate")
         mem = sorted({c[1] for c in classes.values() if c[0] == "mem"})
         hosts = sorted({c[1] for c in classes.values() if c[0] == "host"})
+        failing = {}
         n_models = 0
         for model in models:
             for mem_vals in itertools.product((False, True), repeat=len(mem)):
@@ -589,14 +628,23 @@ def rule_r3(ctx):
                     if compatible:
                         rr.ok(what)
                     else:
-                        desc_s = "/".join(map(str, s_kind))
-                        desc_l = "/".join(map(str, l_kind))
-                        mems = ",".join(k for k, v in mv.items() if v) or "-"
-                        rr.fail(
-                            f"C06-R3|{ci.name}|store:{s_kind[0]}|load:{l_kind[0]}",
-                            f"{ci.name}: for a name with symtable scope {model['scope']} (member of: {mems}; {', '.join(f'{k}={v}' for k, v in hv.items())}) get_assign stores to {desc_s} but get_load_name reads {desc_l}",
-                            where=ci.module.rel, what=what,
-                        )
+                        cause = frozenset([k for k, v in mv.items() if v] + [k for k, v in hv.items() if v and k.startswith("P:")])
+                        failing.setdefault((s_kind[0], l_kind[0]), []).append((cause, model, dict(mv), dict(hv), s_kind, l_kind))
+        # one finding per (storage pair, minimal cause): a second way to reach the same pair is a
+        # different defect and gets a different key
+        for (sk, lk), fails in failing.items():
+            causes = {c for c, *_ in fails}
+            minimal = [c for c in causes if not any(o < c for o in causes)]
+            for c in sorted(minimal, key=sorted):
+                cause, model, mv, hv, s_kind, l_kind = next(f for f in fails if f[0] == c)
+                desc_s = "/".join(map(str, s_kind))
+                desc_l = "/".join(map(str, l_kind))
+                mems = ",".join(k for k, v in mv.items() if v) or "-"
+                rr.fail(
+                    f"C06-R3|{ci.name}|store:{sk}|load:{lk}|{'+'.join(sorted(c)) or '-'}",
+                    f"{ci.name}: for a name with symtable scope {model['scope']} (member of: {mems}; {', '.join(f'{k}={v}' for k, v in hv.items())}) get_assign stores to {desc_s} but get_load_name reads {desc_l}",
+                    where=ci.module.rel, what=f"{ci.name}|{sk}|{lk}|{sorted(c)}",
+                )
         rr.note(f"{ci.name}: {n_models} models of the predicates compared")
     return rr
 
@@ -1221,6 +1269,24 @@ def rule_r11(ctx):
         weak = [n for n in names if n.isidentifier() and not keyword.iskeyword(n)]
         evidence = [s_ for p in parts for s_ in other_strings(p) if not s_.isidentifier()]
         what = f"skip|{'&'.join(ast.unparse(t)[:30] for t in tests)[:80]}"
+        # the walk does not descend into a skipped table: what is done for it must cover the tables
+        # nested inside it (a lambda in a lambda, a comprehension in a comprehension) as well
+        callees = []
+        for st in done:
+            for c in ast.walk(st):
+                if isinstance(c, ast.Call) and isinstance(c.func, ast.Name):
+                    callees += [n for n in ast.walk(mi.tree) if isinstance(n, ast.FunctionDef) and n.name == c.func.id and n is not fi.node and not any(n is p for p in parts)]
+        if callees:
+            rr.instances += 1
+            descends = any(isinstance(x, ast.Attribute) and x.attr == "get_children" for n in callees for x in ast.walk(n))
+            if descends:
+                rr.ok(what + "|subtree", sample={"rule": "C06-R11", "skipped table handled by": [n.name for n in callees], "verdict": "visits get_children()"})
+            else:
+                rr.fail(
+                    "C06-R11|generate_nsp|skipped-subtree-not-visited",
+                    f"{fi.where()}: a lambda/comprehension table gets no namespace and the walk does not descend into it; {', '.join(n.name for n in callees)} looks at its own symbols only, never at get_children(): names used in a lambda/comprehension NESTED in it are missed (`[[abs(v) for v in row] for row in rows]` in a class body on hosts before 3.12: KeyError 'abs')",
+                    where=fi.where(), what=what + "|subtree",
+                )
         if weak and not evidence:
             rr.fail(
                 "C06-R11|generate_nsp|skip-by-name",
@@ -1288,8 +1354,16 @@ def rule_r8(ctx):
     return rr
 
 
+def rule_c14r1(ctx):
+    """"... and the final module namespace coincide": what an import statement binds to a name
+    (shared rule C14-R1)."""
+    from .c14 import rule_r1 as r
+
+    return r(ctx)
+
+
 RULES = [
-    ("C06-R8", rule_r8), ("C06-R9", rule_r9), ("C06-R10", rule_r10), ("C06-R11", rule_r11),
+    ("C14-R1", rule_c14r1), ("C06-R8", rule_r8), ("C06-R9", rule_r9), ("C06-R10", rule_r10), ("C06-R11", rule_r11),
     ("C06-R1", rule_r1), ("C06-R2", rule_r2), ("C06-R3", rule_r3), ("C06-R4", rule_r4),
     ("C06-R5", rule_r5), ("C06-R6", rule_r6), ("C06-R7", rule_r7),
 ]
